@@ -33,8 +33,30 @@ struct Ctx<'a> {
     alive: bool,
 }
 
+/// The top of the chain: a boxed stream, or (for late stacking) a dynamic
+/// adapter kept as a value so that a further stage can be built on it later.
+enum TopS<E: El, I: Item<E>> {
+    Boxed(BoxS<I>),
+    Ad(DynAd<E, I>),
+    Taken,
+}
+
+impl<E: El, I: Item<E>> TopS<E, I> {
+    fn poll_next(&mut self, cx: &mut Context<'_>) -> Poll<Option<I>> {
+        match self {
+            TopS::Boxed(s) => s.as_mut().poll_next(cx),
+            TopS::Ad(DynAd::Head(h)) => Pin::new(h).poll_next(cx),
+            TopS::Ad(DynAd::Tail(h)) => Pin::new(h).poll_next(cx),
+            TopS::Ad(DynAd::Skip(h)) => Pin::new(h).poll_next(cx),
+            TopS::Ad(DynAd::Never(_)) | TopS::Taken => unreachable!(),
+        }
+    }
+}
+
 struct Chain<E: El, I: Item<E>> {
-    top: BoxS<I>,
+    top: TopS<E, I>,
+    /// stage still to be stacked on top (late stacking)
+    pending_stage: Option<StageKind>,
     log: Log<E>,
     stages: Vec<StageR>,
     segs: Vec<SegR<E>>,
@@ -65,14 +87,15 @@ impl<E: El, I: Item<E>> Chain<E, I> {
     fn build(cfg: &Cfg, ob: &ObservableVector<E>) -> Self {
         let log: Log<E> = Rc::new(RefCell::new(Vec::new()));
         let (values, stream) = I::from_sub(ob.subscribe());
-        let n = cfg.stages.len();
+        let n_all = cfg.stages.len();
+        let n = if cfg.late_stack { 1 } else { n_all };
         let mut reps: Vec<Vec<E>> = vec![values.iter().cloned().collect()];
         let mut segs: Vec<SegR<E>> = Vec::new();
         let mut stages: Vec<StageR> = Vec::new();
         let mut cur_seg: Vec<usize> = Vec::new();
         let tap = |g: usize, s: BoxS<I>| -> BoxS<I> { Box::pin(Tap { inner: s, stage: g, log: log.clone() }) };
         let mut cur: Built<E, I> = Built::Pair(values, tap(0, stream));
-        for (k, kind) in cfg.stages.iter().copied().enumerate() {
+        for (k, kind) in cfg.stages.iter().copied().enumerate().take(n) {
             let (built, ctl) = match cur {
                 Built::Pair(v, s) => build_on_pair(v, s, kind, k, cfg.obs_init, &log, cfg.via_adapter),
                 Built::Dyn(ad, _) => {
@@ -111,9 +134,12 @@ impl<E: El, I: Item<E>> Chain<E, I> {
             };
         }
         let (v, top) = match cur {
-            Built::Pair(v, s) => (v, s),
-            Built::Dyn(ad, init) => (init.unwrap_or_default(), ad.into_stream()),
+            Built::Pair(v, s) => (v, TopS::Boxed(s)),
+            Built::Dyn(ad, init) if cfg.late_stack => (init.unwrap_or_default(), TopS::Ad(ad)),
+            Built::Dyn(ad, init) => (init.unwrap_or_default(), TopS::Boxed(ad.into_stream())),
         };
+        let pending_stage = if cfg.late_stack { Some(cfg.stages[1]) } else { None };
+        let _ = n_all;
         reps.push(v.iter().cloned().collect());
         segs.push(SegR { stages: cur_seg, last_item: ItemRec::Init, outputs: vec![] });
         // fix up segment indices of stages
@@ -122,7 +148,74 @@ impl<E: El, I: Item<E>> Chain<E, I> {
                 stages[k].seg = g;
             }
         }
-        Chain { top, log, stages, segs, reps, src_ended: false, ended: false, last_pending: None, flat_out: Vec::new(), direct: cfg.direct }
+        Chain { top, pending_stage, log, stages, segs, reps, src_ended: false, ended: false, last_pending: None, flat_out: Vec::new(), direct: cfg.direct }
+    }
+
+    /// Late stacking: build the pending stage on the dynamic adapter that has
+    /// been the top of the chain so far (it has been polled, has seen limits
+    /// and source updates, and is quiescent). What it hands over as initial
+    /// values must be its current view.
+    fn stack(&mut self, cfg: &Cfg, cx: &Ctx<'_>, st: &mut Stats) -> Result<(), Violation> {
+        let Some(kind) = self.pending_stage.take() else { return Ok(()) };
+        let TopS::Ad(ad) = std::mem::replace(&mut self.top, TopS::Taken) else { unreachable!("late stacking needs a dynamic adapter on top") };
+        let k = self.stages.len();
+        let log = self.log.clone();
+        let view_now = kids(self.reps.last().unwrap());
+        let (built, ctl) = if cfg.direct {
+            build_on_adapter(ad, kind, k, cfg.obs_init, &log)
+        } else {
+            let (v, s) = ad.into_pair();
+            let handed = kids_im(&v);
+            if handed != view_now {
+                return Err(viol(
+                    "C12",
+                    cx.step,
+                    format!("into-parts-not-current-view/{}", self.stages[k - 1].kind.name()),
+                    format!("the adapter hands {:?} to the next stage as initial values, its current view is {:?}", handed, view_now),
+                ));
+            }
+            st.mark("stacked_on_a_polled_adapter");
+            let g = self.segs.len();
+            let tapped: BoxS<I> = Box::pin(Tap { inner: s, stage: g, log: log.clone() });
+            build_on_pair(v, tapped, kind, k, cfg.obs_init, &log, false)
+        };
+        let (lim, src) = match kind.lim() {
+            Some(Lim::Static(x)) => (Some(x as usize), None),
+            Some(Lim::DynInit(x, s)) => (Some(x as usize), Some(s)),
+            Some(Lim::Dyn(s)) => (None, Some(s)),
+            None => (None, None),
+        };
+        let expect = match src {
+            Some(LimSrc::ObsReset) => Some(cfg.obs_init as usize),
+            _ => lim,
+        };
+        let (v, top) = match built {
+            Built::Pair(v, s) => (v, TopS::Boxed(s)),
+            Built::Dyn(ad, init) => (init.unwrap_or_default(), TopS::Boxed(ad.into_stream())),
+        };
+        self.top = top;
+        if cfg.direct {
+            // joined with the segment below: its view replica is replaced by
+            // the new top view
+            let g = self.segs.len() - 1;
+            self.segs[g].stages.push(k);
+            self.segs[g].last_item = ItemRec::Init;
+            self.segs[g].outputs.clear();
+            *self.reps.last_mut().unwrap() = v.iter().cloned().collect();
+            self.stages.push(StageR { kind, lim, ctl, seg: g, expect_lim: expect, lim_src: src, announced: false });
+            st.mark("stacked_on_a_polled_adapter");
+        } else {
+            self.reps.push(v.iter().cloned().collect());
+            self.segs.push(SegR { stages: vec![k], last_item: ItemRec::Init, outputs: vec![] });
+            let g = self.segs.len() - 1;
+            self.stages.push(StageR { kind, lim, ctl, seg: g, expect_lim: expect, lim_src: src, announced: false });
+        }
+        self.flat_out.clear();
+        // from the initial values on
+        for g in 0..self.segs.len() {
+            self.seg_check(g, cx, st)?;
+        }
+        Ok(())
     }
 
     fn view_prop(&self, g: usize, cx: &Ctx<'_>) -> &'static str {
@@ -284,7 +377,7 @@ impl<E: El, I: Item<E>> Chain<E, I> {
         self.log.borrow_mut().clear();
         let (flag, waker) = flag_waker();
         let mut tcx = Context::from_waker(&waker);
-        let r = self.top.as_mut().poll_next(&mut tcx);
+        let r = self.top.poll_next(&mut tcx);
         st.transitions += 1;
         let events = std::mem::take(&mut *self.log.borrow_mut());
         let src_end_before = self.src_ended;
@@ -508,6 +601,11 @@ impl<E: El, I: Item<E>> World<E, I> {
                 Tok::Drain => {
                     self.drain_all(st)?;
                 }
+                Tok::Stack => {
+                    self.drain_all(st)?;
+                    let cx = Ctx { step: self.step, prop: self.cfg.prop, model: &self.vec, alive: self.alive };
+                    self.main.stack(&self.cfg, &cx, st)?;
+                }
                 Tok::DropVec => {
                     self.ob = None;
                     self.alive = false;
@@ -596,7 +694,7 @@ impl<E: El, I: Item<E>> World<E, I> {
                     Tok::Drain => {
                         self.drain_all(st)?;
                     }
-                    Tok::TxnBegin | Tok::DropVec => unreachable!(),
+                    Tok::TxnBegin | Tok::DropVec | Tok::Stack => unreachable!(),
                 }
                 self.after_token(st)?;
                 i += 1;
